@@ -214,7 +214,7 @@ DRAW_RW = [
 ]
 
 INV_COMMON = [
-    "term@.wf()", "term@.same_geom(t0)", "term@.flushed == t0.flushed", "t0.wf()", "t0 == old(term)@",
+    "term@.wf()", "term@.same_geom(t0)", "term@.flushed == t0.flushed", "term@.errs == t0.errs", "t0.wf()", "t0 == old(term)@",
     "start == frame_start(t0, n0)",
 ]
 INV_FRAME = ["forall|p: int| p < start ==> (#[trigger] (term@.cells)(p)) == (t0.cells)(p)"]
@@ -279,6 +279,7 @@ UNIT = Unit(
                ("frame-lines", "final(self).lines@ == old(self).lines@ && final(self).move_cursor == old(self).move_cursor && final(self).alignment == old(self).alignment"),
                ("C18-error-keeps-count", "res.is_err() ==> *final(bar_count) == *old(bar_count)", ["C18"]),
                ("geometry", "final(term)@.same_geom(old(term)@) && final(term)@.wf()"),
+               ("C18-errors-reported", "res.is_ok() ==> final(term)@.errs == old(term)@.errs", ["C18"]),
                ("one-flush", "res.is_ok() ==> final(term)@.flushed == old(term)@.flushed + 1"),
                ("C03-rows-above-untouched",
                 "res.is_ok() && !cr_hazard(*old(self), old(term)@, old(bar_count).0 as int) ==> forall|p: int| p < frame_start(old(term)@, old(bar_count).0 as int) ==> (#[trigger] (final(term)@.cells)(p)) == (old(term)@.cells)(p)",
@@ -341,7 +342,7 @@ UNIT = Unit(
         assert(lp ==> start == brow * t0.w) by {
             assert((t0.row + 1) * t0.w == t0.row * t0.w + t0.w) by (nonlinear_arith);
         }"""),
-               (r"term\.flush\(\)\?;", "after", """        proof {
+               (r"term\.flush\(\)", "after", """        proof {
             lemma_stop(lines0, t0.w, t0.h, 0, __n0 as int);
             lemma_rh_le_hts(lines0, t0.w, __n0 as int);
             lemma_hts_mono(lines0, t0.w, __n0 as int, lines0.len() as int);
@@ -513,7 +514,7 @@ UNIT = Unit(
                        "good && lines0.len() == 0 ==> term@.lin() == start",
                        "__n0 <= self.lines.len()", "self.lines@ == lines0",
                        "__n0 == lines0.len() || brk(lines0, t0.w, t0.h, __n0 as int)",
-                       "term@.wf()", "term@.same_geom(t0)", "term@.flushed == t0.flushed",
+                       "term@.wf()", "term@.same_geom(t0)", "term@.flushed == t0.flushed", "term@.errs == t0.errs",
                        "!hazard ==> forall|p: int| p < start ==> (#[trigger] (term@.cells)(p)) == (t0.cells)(p)",
                        "real_height.0 as nat == rh(lines0, t0.w, __n0 as int)", "real_height.0 as nat <= t0.h",
                        "forall|k: int| 0 <= k < __n0 ==> !brk(lines0, t0.w, t0.h, k)"],
